@@ -5,6 +5,7 @@ import (
 	"sort"
 	"strings"
 	"testing"
+	"time"
 
 	erpc "github.com/henrylee2cn/erpc/v6"
 
@@ -67,7 +68,7 @@ func runC07(t *testing.T, seed uint64, m *Mask) *Report {
 	nCli := 1 + r.Intn(2)
 	nOps := 4 + r.Intn(14)
 	var ops []c07Op
-	kinds := []string{"dial", "dial", "dial", "dial_reject_accept", "dial_reject_dial", "setid_fresh", "setid_collide", "call", "call", "push", "close_cli", "close_srv", "close_twice", "cut", "close_vs_cut", "close_vs_remote_close", "call_vs_close", "setid_vs_close"}
+	kinds := []string{"dial", "dial", "dial", "dial_reject_accept", "dial_reject_dial", "setid_fresh", "setid_collide", "call", "call", "push", "close_cli", "close_srv", "close_twice", "cut", "close_vs_cut", "close_vs_remote_close", "call_vs_close", "setid_vs_close", "dial_age", "dial_age"}
 	for i := 0; i < nOps; i++ {
 		ops = append(ops, c07Op{kind: kinds[r.Intn(len(kinds))], a: r.Intn(1000), b: r.Intn(1000), s: fmt.Sprintf("id%d", r.Intn(4))})
 	}
@@ -104,11 +105,15 @@ func runC07(t *testing.T, seed uint64, m *Mask) *Report {
 		// an accept hook placed before the refusing one names the session (as an identify/auth plugin would):
 		// a connection refused afterwards must still vanish from the index
 		namer := &c07Namer{on: func() bool { return rejectAccept && e.Gen.Chance(0.5) }}
-		peers := []erpc.Peer{e.NewPeer("srv", erpc.PeerConfig{}, namer, mkRec("rec-srv"))}
+		// a connection hook may give a session a maximum age (a read deadline on the simulated clock): when it
+		// runs out the reader gives up on an intact connection - a disconnect like any other
+		ages := []*world.AgeHook{{}}
+		peers := []erpc.Peer{e.NewPeer("srv", erpc.PeerConfig{}, namer, ages[0], mkRec("rec-srv"))}
 		routes := []world.Routes{e.RegisterStd(peers[0])}
 		for i := 0; i < nCli; i++ {
 			dnamer := &c07Namer{on: func() bool { return rejectDial && e.Gen.Chance(0.5) }}
-			p := e.NewPeer(fmt.Sprintf("cli%d", i), erpc.PeerConfig{}, dnamer, mkRec(fmt.Sprintf("rec-cli%d", i)))
+			ages = append(ages, &world.AgeHook{})
+			p := e.NewPeer(fmt.Sprintf("cli%d", i), erpc.PeerConfig{}, dnamer, ages[i+1], mkRec(fmt.Sprintf("rec-cli%d", i)))
 			peers = append(peers, p)
 			routes = append(routes, e.RegisterStd(p))
 		}
@@ -334,6 +339,61 @@ func runC07(t *testing.T, seed uint64, m *Mask) *Report {
 				kill(x.pair)
 				simrt.WaitQuiescent()
 				checkIndex("after " + op.kind)
+			case "dial_age":
+				// a new session whose client or server end has a maximum age; optionally a local Close, a call or a
+				// SetID lands at the very instant the age runs out.  Then the system settles: both ends are gone
+				ci := 1 + op.a%nCli
+				aged := ages[[]int{0, ci}[op.b%2]]
+				aged.Next = time.Duration(1+op.b%7) * 30 * time.Millisecond
+				nConnBefore := len(e.Net.Conns)
+				s, st := peers[ci].Dial("10.9.0.1:9000", pf)
+				pr := &c07Pair{idx: len(pairs)}
+				if len(e.Net.Conns) > nConnBefore {
+					pr.conn = e.Net.Conns[nConnBefore]
+				}
+				pairs = append(pairs, pr)
+				if !st.OK() {
+					e.Fail("infra-dial-failed", "dial: %v", st)
+					aged.Next = 0
+					continue
+				}
+				cli := &c07End{sess: s, peer: ci, key: world.SessKey(s), id: s.LocalAddr().String(), live: true, estab: true, pair: pr}
+				pr.cli = cli
+				ends = append(ends, cli)
+				want := s.LocalAddr().String()
+				e.Until(func() bool { x := e.FindSession(peers[0], want); return x != nil && x.Health() })
+				srvS := e.FindSession(peers[0], want)
+				aged.Next = 0
+				if srvS == nil {
+					e.Fail("C07/accepted-session-not-indexed", "server has no session for %s | history: %s", want, strings.Join(trace, " "))
+					cli.live = false
+					continue
+				}
+				srv := &c07End{sess: srvS, peer: 0, key: world.SessKey(srvS), id: srvS.RemoteAddr().String(), live: true, estab: true, pair: pr}
+				pr.srv = srv
+				ends = append(ends, srv)
+				e.Net.Fault("session_age")
+				x := []*c07End{cli, srv}[op.a%2]
+				if racer := op.a % 4; racer != 3 {
+					done := 0
+					simrt.GoNamed("racer-b", func() {
+						simrt.Sleep(time.Until(aged.Deadline) - time.Duration(op.b%2)*time.Microsecond)
+						simrt.YieldN(op.a % 5)
+						switch racer {
+						case 0:
+							x.sess.Close()
+						case 1:
+							issue(x, "call")
+						case 2:
+							x.sess.SetID(fmt.Sprintf("aged-%d", oi))
+						}
+						done++
+					})
+					simrt.WaitCond(func() bool { return done == 1 })
+				}
+				kill(pr)
+				simrt.WaitQuiescent()
+				checkIndex("after dial_age")
 			case "peer_close":
 				pi := op.a % len(peers)
 				peers[pi].Close()
